@@ -32,13 +32,14 @@ REWRITE_TABLE = [
     "<e>.astype(T)        -> proxy cells: int = element-wise truncation, float = identity",
     "np.isnan(x)          -> proxy: False, None: True (object columns hold None where float64 holds NaN)",
     "np.lcm(a,b)          -> proxy: solver-driven concretisation, then numpy",
+    "np.isclose(a,b,..)   -> proxy: |a-b| <= atol + rtol*|b| element-wise (forks); np.isfinite -> proxy: True",
     "unpack / struct.unpack(fmt, b) -> harness stub for marked fields, else struct.unpack",
     "yaml.safe_load / yaml.dump     -> harness stub at document level when installed, else PyYAML",
     "pandas Series/DataFrame.shift on object columns fills NaN (as for float64 columns) instead of None",
 ]
 
 NAME_CALLS = {"int", "float", "round", "Fraction", "unpack"}
-NP_CALLS = {"isnan", "lcm"}
+NP_CALLS = {"isnan", "lcm", "isclose", "isfinite"}
 MOD_CALLS = {("struct", "unpack"): "unpack", ("yaml", "safe_load"): "yaml_safe_load", ("yaml", "dump"): "yaml_dump"}
 
 REWRITES_DONE = {}  # module file -> number of rewritten call sites
@@ -229,6 +230,48 @@ def sym_np_isnan(x, *a, **kw):
     return np.isnan(x, *a, **kw)
 
 
+def _cells(x):
+    if isinstance(x, pd.Series):
+        return list(x.array) if x.dtype == object else x.tolist(), ("series", x.index, x.name)
+    if isinstance(x, np.ndarray):
+        return list(x.ravel()), ("array", x.shape, None)
+    return None, None
+
+
+def sym_np_isfinite(x, *a, **kw):
+    cells, shape = _cells(x)
+    if isinstance(x, SymNum):
+        return True
+    if cells is not None and _has_sym(cells):
+        out = [True if isinstance(v, SymNum) else (not isna(v) and bool(np.isfinite(float(v)))) for v in cells]
+        return pd.Series(out, index=shape[1], name=shape[2]) if shape[0] == "series" else np.array(out, dtype=bool).reshape(shape[1])
+    return np.isfinite(x, *a, **kw)
+
+
+def sym_np_isclose(a, b, rtol=1e-05, atol=1e-08, equal_nan=False):
+    ca, sa = _cells(a)
+    cb, sb = _cells(b)
+    symbolic = isinstance(a, SymNum) or isinstance(b, SymNum) or (ca is not None and _has_sym(ca)) or (cb is not None and _has_sym(cb))
+    if not symbolic:
+        return np.isclose(a, b, rtol=rtol, atol=atol, equal_nan=equal_nan)
+    shape = sa or sb
+    n = len(ca) if ca is not None else (len(cb) if cb is not None else 1)
+    xs = ca if ca is not None else [a] * n
+    ys = cb if cb is not None else [b] * n
+    out = []
+    for x, y in zip(xs, ys):
+        if isna(x) or isna(y):
+            out.append(bool(equal_nan and isna(x) and isna(y)))
+            continue
+        d = x - y
+        d = d if bool(d >= 0) else -d
+        m = y if bool(y >= 0) else -y
+        out.append(bool(d <= F(atol) + F(rtol) * m))
+    if shape is None:
+        return out[0]
+    return np.array(out, dtype=bool).reshape(shape[1]) if shape[0] == "array" else np.array(out, dtype=bool)
+
+
 def sym_np_lcm(a, b, *r, **kw):
     if isinstance(a, SymNum):
         a = concretize(a)
@@ -276,6 +319,8 @@ IMPL = {
     "astype": sym_astype,
     "np_isnan": sym_np_isnan,
     "np_lcm": sym_np_lcm,
+    "np_isclose": sym_np_isclose,
+    "np_isfinite": sym_np_isfinite,
     "unpack": sym_unpack,
     "yaml_safe_load": sym_yaml_safe_load,
     "yaml_dump": sym_yaml_dump,
